@@ -6,6 +6,7 @@ import PhysisModel.Model.PatchList
 import PhysisModel.Spec.Sha1
 import PhysisModel.Spec.Fiin
 import PhysisModel.Spec.PatchList
+import PhysisModel.Base.Mutate
 /-!
 C10 driver.  Case grammar (strings are hex of their UTF-8 bytes, `-` = empty):
 
@@ -17,6 +18,14 @@ C10 driver.  Case grammar (strings are hex of their UTF-8 bytes, `-` = empty):
                                        `patches` = `-` | `p;p;…`,
                                        `p` = `<len>,<size>,<a>,<b>,<hbs>,<version>,<url>,<hashes>`,
                                        `hashes` = `_` | `h+h+…`
+* `mut <seed> <k> parse <entries>`     the encoded FIIN table with `k` damaged bytes (`Base/Mutate.lean`;
+                                       three times out of four the positions are drawn over the 32 header
+                                       bytes + the records, i.e. not from the 992 padding bytes)
+* `mut <seed> <k> plparse …`           the encoded wire text with `k` damaged bytes; the text handed to
+                                       `from_string` is a `&str`, so the new bytes are ASCII (half of them
+                                       separators / digits / signs, `textByte`) and replace ASCII bytes only
+                                       (a text that is no `&str` would be answered `not-utf8` by both sides)
+  for both: expected = the answer of the model of the code on the damaged input (tags `corr mut`)
 -/
 namespace Physis.Driver.C10
 open Physis Physis.Proto
@@ -119,6 +128,68 @@ def optPl : Option PatchList → String
 /-- tag for trivial cases (nothing to hash / no entries / no patches) -/
 def trivIf (b : Bool) : List String := if b then ["triv"] else []
 
+/-! ### damaged inputs (family `mut`) -/
+
+/-- FIIN: header (32 bytes), 992 padding bytes, records.  Damage drawn over header + records (the
+padding is only hit when the whole file is damaged, `seed % 4 = 0`). -/
+def damageFiin (file : Bytes) (seed : UInt64) (k : Nat) : Bytes :=
+  if seed % 4 == 0 || file.length < 1024 then Mutate.mutate file seed k else
+  let compact := Mutate.mutate (file.take 32 ++ file.drop 1024) seed k 128
+  compact.take 32 ++ (file.drop 32).take 992 ++ compact.drop 32
+
+/-- the bytes a damaged text gets: tab, CR, LF, comma, digits, signs, NUL, space … half of the time,
+otherwise `Mutate.newByte` folded into ASCII -/
+def textByte (old : UInt8) (r : UInt64) : UInt8 :=
+  let seps : Array UInt8 := #[9, 13, 10, 0x2c, 0x30, 0x39, 0x2d, 0x2b, 0x20, 0x00, 0x3a, 0x58, 0x31, 9, 13, 10]
+  let v := if (r >>> 44) % 2 == 0 then seps[((r >>> 52) % 16).toNat]! else Mutate.newByte old r &&& 0x7F
+  if v == old then old ^^^ 0x01 else v
+
+/-- `Mutate.mutate` with `textByte` -/
+def damageText (bs : Bytes) (seed : UInt64) (k : Nat) : Bytes :=
+  if bs.isEmpty then bs else
+  let rec go (a : Array UInt8) (s : UInt64) : Nat → Array UInt8
+    | 0 => a
+    | n + 1 =>
+      let s1 := Mutate.lcg s
+      let s2 := Mutate.lcg s1
+      let range := if (s1 >>> 62) % 2 == 0 then min 256 a.size else a.size
+      let pos0 := ((s1 >>> 20) % range.toUInt64).toNat
+      -- the next ASCII byte at or after the drawn position (cyclically): the text stays a `&str`
+      let pos := ((List.range a.size).find? (fun d => a[(pos0 + d) % a.size]! < 0x80)).map (fun d => (pos0 + d) % a.size)
+      match pos with
+      | some pos => go (a.set! pos (textByte a[pos]! s2)) s2 n
+      | none => go a s2 n
+  (go bs.toArray seed k).toList
+
+def handleParse (es : String) (dmg : Option (UInt64 × Nat) := none) : String :=
+  match parseEntries es with
+  | some es =>
+    if let some (seed, k) := dmg then
+      let file := damageFiin (Spec.Fiin.encode es) seed k
+      -- the reader returns `None` / decodes lossily where it used to panic (fix d91cecd)
+      let model := match Fiin.parse file with
+        | .ok es => showEntries es
+        | _ => "none"
+      answer ("parse " ++ Bytes.toHex file) model ["corr", "mut"]
+    else
+    let file := Spec.Fiin.encode es
+    answer ("parse " ++ Bytes.toHex file) (showEntries (es.map Spec.Fiin.normEntry)) (trivIf es.isEmpty)
+      (some (showRes (Fiin.parse file)))
+  | none => bad
+
+def handlePlparse (kind id cl rv n ps : String) (dmg : Option (UInt64 × Nat) := none) : String :=
+  match parsePl kind id cl rv n ps with
+  | some (k, pl) =>
+    if let some (seed, nd) := dmg then
+      let text := damageText (Spec.PatchList.encode k pl) seed nd
+      let model := if Spec.Fiin.utf8Valid text then optPl (PatchList.fromString k text) else "not-utf8"
+      answer ("plparse " ++ kind ++ " " ++ Bytes.toHex text) model ["corr", "mut"]
+    else
+    let text := Spec.PatchList.encode k pl
+    answer ("plparse " ++ kind ++ " " ++ Bytes.toHex text) (showPatchList (Spec.PatchList.decoded k pl)) []
+      (some (optPl (PatchList.fromString k text)))
+  | none => bad
+
 /-- one case line in, one answer line out (see `Base/Proto.lean`) -/
 def handle (line : String) : String :=
   match fields line with
@@ -142,13 +213,15 @@ def handle (line : String) : String :=
     match parseEntries es with
     | some es => answer "=" (Bytes.toHex (Spec.Fiin.encode es)) [] (some (Bytes.toHex (Fiin.write es)))
     | none => bad
-  | ["parse", es] =>
-    match parseEntries es with
-    | some es =>
-      let file := Spec.Fiin.encode es
-      answer ("parse " ++ Bytes.toHex file) (showEntries (es.map Spec.Fiin.normEntry)) (trivIf es.isEmpty)
-        (some (showRes (Fiin.parse file)))
-    | none => bad
+  | ["parse", es] => handleParse es
+  | ["mut", seed, k, "parse", es] =>
+    match seed.toNat?, k.toNat? with
+    | some s, some k => handleParse es (some (s.toUInt64, k))
+    | _, _ => bad
+  | ["mut", seed, k, "plparse", kind, id, cl, rv, n, ps] =>
+    match seed.toNat?, k.toNat? with
+    | some s, some k => handlePlparse kind id cl rv n ps (some (s.toUInt64, k))
+    | _, _ => bad
   | ["rt", es] =>
     match parseEntries es with
     | some es =>
@@ -160,13 +233,7 @@ def handle (line : String) : String :=
     | some (kind, pl) =>
       answer "=" (Bytes.toHex (Spec.PatchList.encode kind pl)) [] (some (optHex (PatchList.toString kind pl)))
     | none => bad
-  | ["plparse", kind, id, cl, rv, n, ps] =>
-    match parsePl kind id cl rv n ps with
-    | some (k, pl) =>
-      let text := Spec.PatchList.encode k pl
-      answer ("plparse " ++ kind ++ " " ++ Bytes.toHex text) (showPatchList (Spec.PatchList.decoded k pl)) []
-        (some (optPl (PatchList.fromString k text)))
-    | none => bad
+  | ["plparse", kind, id, cl, rv, n, ps] => handlePlparse kind id cl rv n ps
   | ["plrt", kind, id, cl, rv, n, ps] =>
     match parsePl kind id cl rv n ps with
     | some (kind, pl) =>
